@@ -2,13 +2,12 @@
 from __future__ import annotations
 
 import ast
-import operator
 
-from sa import source
-from sa.cfg import cfg_of, guards
+from sa import minieval, source
+from sa.minieval import CannotEval, Record
 from sa.exc import Hierarchy, handler_type_names
 from sa.source import AnchorMissing, dotted, is_self_attr, last_attr, local_defs, params_of, short, u, walk_body
-from sa.sym import UnknownAtom, comparison
+from sa.sym import UnknownAtom
 from sa.tables import Outcome, Unsupported, decide
 
 _M = "esrally/metrics.py"
@@ -41,9 +40,544 @@ CASES = [
     ("bulk error, item status 409", "elasticsearch.helpers.BulkIndexError", ("item", 409), "fatal"),
     ("bulk error, item status 500", "elasticsearch.helpers.BulkIndexError", ("item", 500), "fatal"),
     ("bulk error, item without status", "elasticsearch.helpers.BulkIndexError", ("item", None), "fatal"),
+    # one non-retryable item makes the whole bulk error fatal, wherever it stands among retryable ones
+    ("bulk error, item statuses 429 and 400", "elasticsearch.helpers.BulkIndexError", ("item", [429, 400]), "fatal"),
+    ("bulk error, item statuses 400 and 503", "elasticsearch.helpers.BulkIndexError", ("item", [400, 503]), "fatal"),
 ]
 
-_OPS = {"<": operator.lt, "<=": operator.le, ">": operator.gt, ">=": operator.ge, "==": operator.eq, "!=": operator.ne}
+_LOOPS = (ast.While, ast.For)
+_MUTATORS = ("append", "extend", "add", "remove", "discard", "pop", "clear", "update", "insert")
+
+
+class _Raised(Exception):
+    """a helper evaluated inside an expression raised: carries the Outcome of the raise."""
+
+    def __init__(self, out):
+        super().__init__("raise")
+        self.out = out
+
+
+def _prep(expr, jitter):
+    """re-parsed copy of an expression in which library calls with a known meaning are replaced by what minieval evaluates: random.random() -> the representative jitter value,
+    random.uniform(a, b) -> a + (b - a) * jitter, a << b -> a * 2 ** b, pow(a, b) / math.pow(a, b) -> a ** b, min / max of several arguments -> of a list."""
+
+    class P(ast.NodeTransformer):
+        def visit_Call(self, n):
+            self.generic_visit(n)
+            d = dotted(n.func) or ""
+            if d == "random.random" and not n.args and not n.keywords:
+                return ast.Constant(jitter)
+            if d == "random.uniform" and len(n.args) == 2 and not n.keywords:
+                return ast.BinOp(n.args[0], ast.Add(), ast.BinOp(ast.BinOp(n.args[1], ast.Sub(), n.args[0]), ast.Mult(), ast.Constant(jitter)))
+            if d in ("pow", "math.pow") and len(n.args) == 2 and not n.keywords:
+                return ast.BinOp(n.args[0], ast.Pow(), n.args[1])
+            if d in ("min", "max") and len(n.args) >= 2 and not n.keywords:
+                return ast.Call(ast.Name(d, ast.Load()), [ast.List(list(n.args), ast.Load())], [])
+            return n
+
+        def visit_BinOp(self, n):
+            self.generic_visit(n)
+            if isinstance(n.op, ast.LShift):
+                return ast.BinOp(n.left, ast.Mult(), ast.BinOp(ast.Constant(2), ast.Pow(), n.right))
+            return n
+
+    return ast.fix_missing_locations(P().visit(ast.parse(u(expr), mode="eval").body))
+
+
+class _GuardModel:
+    """Value-level model of the guard (nothing of the repository is executed: extracted tests / expressions are evaluated by sa.minieval on representative values).
+    Roles are derived, not named:
+      helper         = a method of the store client (self.m / cls.m / EsClient.m) or a top-level function of the module, called from the guard: its body is interpreted with the
+                       arguments bound to the parameters (an extracted helper reads like the code it replaced);
+      self           = Record of the attributes that the class binds exactly once to a literal (the retryable set, whatever it is called);
+      exception      = Record(status_code / meta.status / errors / message ...) built from the abstract case;
+      loop state     = the integer / float locals of the guard, obtained by interpreting the statements around the try (while with a counter or for over a range alike)."""
+
+    LIMIT = 40
+
+    def __init__(self, met, EC, gd, L, T):
+        self.met, self.EC, self.gd, self.L, self.T = met, EC, gd, L, T
+        self.em = met.methods(EC)
+        self.top = {n.name: n for n in met.tree.body if isinstance(n, source.FUNC_TYPES)}
+        self.jitter = 0.0
+        self.debug = True
+        self.sleeps = []
+        self.depth = 0
+        self._cache = {}
+        self.sleep_names = {"time.sleep"} | {k for k, v in met.imports.items() if v == "time.sleep"}
+        # module-level names bound once to a literal (constants that N9 did not already propagate)
+        self.genv = {}
+        stores = {}
+        for n in ast.walk(met.tree):
+            if isinstance(n, ast.Name) and isinstance(n.ctx, (ast.Store, ast.Del)):
+                stores[n.id] = stores.get(n.id, 0) + 1
+        for st in met.tree.body:
+            if isinstance(st, ast.Assign) and len(st.targets) == 1 and isinstance(st.targets[0], ast.Name) and stores.get(st.targets[0].id) == 1 and source._pure_literal(st.value):
+                try:
+                    self.genv[st.targets[0].id] = minieval.ev(st.value, {})
+                except CannotEval:
+                    pass
+        # attributes of the store client bound exactly once, to a literal
+        nbind, lit = {}, {}
+        for n in ast.walk(EC):
+            if isinstance(n, (ast.Assign, ast.AugAssign)):
+                for t in (n.targets if isinstance(n, ast.Assign) else [n.target]):
+                    if is_self_attr(t) or (isinstance(t, ast.Name) and source.parent(n) is EC):
+                        nm = t.attr if isinstance(t, ast.Attribute) else t.id
+                        nbind[nm] = nbind.get(nm, 0) + 1
+                        if isinstance(n, ast.Assign) and source._pure_literal(n.value):
+                            lit[nm] = n
+        self.attr_sites = {nm: n for nm, n in lit.items() if nbind[nm] == 1}
+        fields = {}
+        for nm, n in self.attr_sites.items():
+            try:
+                fields[nm] = minieval.ev(n.value, {})
+            except CannotEval:
+                pass
+        self.selfrec = Record(**fields)
+
+    # -- helpers ----------------------------------------------------------------------------------------------------------------------------------
+    def helper_of(self, c):
+        if not isinstance(c, ast.Call):
+            return None
+        f = c.func
+        if isinstance(f, ast.Attribute) and isinstance(f.value, ast.Name) and f.value.id in ("self", "cls", self.EC.name):
+            m = self.em.get(f.attr)
+            return m if m is not None and m is not self.gd else None
+        if isinstance(f, ast.Name):
+            return self.top.get(f.id)
+        return None
+
+    def closure(self):
+        """the guard and the helpers it (transitively) calls."""
+        out, work = [], [self.gd]
+        while work:
+            f = work.pop()
+            if any(f is x for x in out):
+                continue
+            out.append(f)
+            for n in walk_body(f):
+                m = self.helper_of(n)
+                if m is not None:
+                    work.append(m)
+        return out
+
+    def sleeps_outside_handlers(self):
+        """sleep calls of the retry loop that are neither in a handler nor behind the try (e.g. a pause at the start of the next iteration): not modelled."""
+        inside = {id(x) for h in self.T.handlers for x in ast.walk(h)} | {id(x) for st in self.after_try() for x in ast.walk(st)}
+        return [x for x in ast.walk(self.L) if self.is_sleep(x) and id(x) not in inside]
+
+    def is_sleep(self, c):
+        return isinstance(c, ast.Call) and (dotted(c.func) or "") in self.sleep_names and len(c.args) == 1
+
+    def base_env(self):
+        env = dict(self.genv)
+        env["self"] = self.selfrec
+        return env
+
+    # -- values -----------------------------------------------------------------------------------------------------------------------------------
+    def value(self, expr, env):
+        key = (id(expr), self.jitter)
+        ent = self._cache.get(key)
+        if ent is None:
+            p = _prep(expr, self.jitter)
+            ent = self._cache[key] = (expr, p, any(self.helper_of(n) is not None for n in ast.walk(p)))
+        p = ent[1]
+        if ent[2]:
+            model = self
+
+            class S(ast.NodeTransformer):
+                def visit_Call(self, n):
+                    self.generic_visit(n)
+                    m = model.helper_of(n)
+                    if m is None:
+                        return n
+                    try:
+                        v = model.call_helper(m, n, env)
+                    except (CannotEval, Unsupported, UnknownAtom):
+                        return n
+                    nm = f"__h{len(env)}"
+                    env[nm] = v
+                    return ast.Name(nm, ast.Load())
+
+            p = ast.fix_missing_locations(S().visit(_prep(expr, self.jitter)))
+        try:
+            return minieval.ev(p, env)
+        except (TypeError, ValueError, KeyError, IndexError, AttributeError, ArithmeticError) as x:
+            raise CannotEval(f"{short(expr, 50)}: {type(x).__name__}")
+
+    def call_helper(self, m, call, env, want_outcome=False):
+        if self.depth > 5:
+            raise Unsupported(f"helper calls nested deeper than 5 at {m.name}")
+        env2 = self.base_env()
+        a = m.args
+        pos = a.posonlyargs + a.args
+        for p_, d_ in list(zip(pos[len(pos) - len(a.defaults):], a.defaults)) + [(p_, d_) for p_, d_ in zip(a.kwonlyargs, a.kw_defaults) if d_ is not None]:
+            try:
+                env2[p_.arg] = self.value(d_, {})
+            except CannotEval:
+                pass
+        for p_, arg in source.bind_args(call, m).items():
+            try:
+                env2[p_] = self.value(arg, env)
+            except CannotEval:
+                env2.pop(p_, None)
+        self.depth += 1
+        try:
+            out = decide(m.body, self.atom, env2, on_stmt=self.on_stmt)
+        finally:
+            self.depth -= 1
+        if want_outcome:
+            return out, env2
+        if out.kind == "raise":
+            raise _Raised(out)
+        if out.kind == "return" and out.value is not None:
+            return self.value(out.value, env2)
+        return None
+
+    def atom(self, n, env):
+        if isinstance(n, ast.Call) and last_attr(n.func) in ("isEnabledFor", "isDebugEnabled"):
+            return self.debug  # the log level is a FREE variable of the classification
+        try:
+            return bool(self.value(n, env))
+        except CannotEval:
+            return None
+
+    def _bind(self, target, v, env):
+        if isinstance(target, ast.Name):
+            env[target.id] = v
+        elif isinstance(target, (ast.Tuple, ast.List)) and isinstance(v, (list, tuple)) and len(v) == len(target.elts) and all(isinstance(t, ast.Name) for t in target.elts):
+            for t, x in zip(target.elts, v):
+                env[t.id] = x
+        else:
+            raise Unsupported(f"loop target {short(target, 40)}")
+
+    def on_stmt(self, s, env, b):
+        if isinstance(s, ast.Assign) and len(s.targets) == 1 and isinstance(s.targets[0], ast.Name):
+            try:
+                env[s.targets[0].id] = self.value(s.value, env)
+            except CannotEval:
+                env.pop(s.targets[0].id, None)
+            return None
+        if isinstance(s, ast.AugAssign) and isinstance(s.target, ast.Name):
+            try:
+                env[s.target.id] = self.value(ast.fix_missing_locations(ast.BinOp(ast.Name(s.target.id, ast.Load()), s.op, s.value)), env)
+            except CannotEval:
+                env.pop(s.target.id, None)
+            return None
+        if isinstance(s, ast.Expr) and isinstance(s.value, ast.Call):
+            c = s.value
+            if self.is_sleep(c):
+                try:
+                    self.sleeps.append(self.value(c.args[0], env))
+                except CannotEval:
+                    self.sleeps.append(None)
+                return None
+            m = self.helper_of(c)
+            if m is not None:
+                try:
+                    self.call_helper(m, c, env)
+                except _Raised as r:
+                    return r.out
+                return "skip"
+            return None
+        if isinstance(s, ast.For):
+            try:
+                it = self.value(s.iter, env)
+            except CannotEval as x:
+                raise Unsupported(f"loop over `{short(s.iter, 40)}`: {x}")
+            if not isinstance(it, (list, tuple, set, frozenset, dict, range)):
+                raise Unsupported(f"loop over `{short(s.iter, 40)}`")
+            broke = False
+            for v in list(it)[: self.LIMIT]:
+                self._bind(s.target, v, env)
+                out = decide(s.body, self.atom, env, b, self.on_stmt)
+                if out.kind in ("raise", "return"):
+                    return out
+                if out.kind == "break":
+                    broke = True
+                    break
+            if not broke and s.orelse:
+                out = decide(s.orelse, self.atom, env, b, self.on_stmt)
+                if out.kind != "fallthrough":
+                    return out
+            return "skip"
+        return None
+
+    # -- the abstract exception -------------------------------------------------------------------------------------------------------------------------
+    @staticmethod
+    def exc_record(status):
+        if isinstance(status, tuple):
+            items = status[1] if isinstance(status[1], list) else [status[1]]
+            errs = []
+            for i, st in enumerate(items):
+                d = {"_index": "rally-metrics", "_id": str(i), "error": {"type": "some_exception", "reason": "some reason"}}
+                if st is not None:
+                    d["status"] = st
+                errs.append({"index": d})
+            return Record(errors=errs, message=f"{len(errs)} document(s) failed to index.", args=(f"{len(errs)} document(s) failed to index.", errs))
+        return Record(status_code=status, meta=Record(status=status), status=status, error="some_error", message="some message", errors=(), info={}, body={})
+
+    def after_try(self):
+        """the statements of the loop body that follow the try (they run after a handler that falls through)."""
+        p = source.parent(self.T)
+        blk = [x for x in self.L.body]
+        if p is self.L and any(x is self.T for x in blk):
+            return blk[[i for i, x in enumerate(blk) if x is self.T][0] + 1:]
+        return []
+
+    def interpret(self, h, status, env):
+        """Outcome of one failed attempt: handler h for the abstract exception `status` in the loop state env (mutated in place), followed - when the handler falls through - by the
+        rest of the loop body; .sleeps = the durations slept, by value."""
+        self.sleeps = []
+        if h.name:
+            env[h.name] = self.exc_record(status)
+        try:
+            out = decide(h.body, self.atom, env, on_stmt=self.on_stmt)
+            rest = self.after_try()
+            if out.kind == "fallthrough" and rest:
+                out2 = decide(rest, self.atom, env, on_stmt=self.on_stmt)
+                out2.effects = out.effects + out2.effects
+                out = out2
+        except _Raised as r:
+            out = r.out
+        out.sleeps = list(self.sleeps)
+        return out
+
+    def idle_attempt(self, env):
+        """a failed attempt whose handler does nothing (used to obtain the loop states independently of the handlers)."""
+        self.sleeps = []
+        rest = self.after_try()
+        out = decide(rest, self.atom, env, on_stmt=self.on_stmt) if rest else Outcome("fallthrough")
+        out.sleeps = []
+        return out
+
+    def interpret_both(self, h, status, env):
+        """(outcome with DEBUG logging enabled, outcome with DEBUG disabled)"""
+        try:
+            self.debug = True
+            a = self.interpret(h, status, dict(env))
+            self.debug = False
+            b = self.interpret(h, status, dict(env))
+        finally:
+            self.debug = True
+        return a, b
+
+    # -- the loop ---------------------------------------------------------------------------------------------------------------------------------------
+    def run_loop(self, on_attempt):
+        """Interprets the body of the guard for a persistent fault: on_attempt(env) -> Outcome of the handler selected in each attempt.
+        Returns {"states": [loop state seen by the handler in attempt k], "pauses": [[durations slept in attempt k]], "end": text, "raise": Outcome | None}."""
+        env = self.base_env()
+        res = {"states": [], "pauses": [], "end": None, "raise": None, "exhausted": False}
+        model = self
+
+        def drop(s):
+            for x in ast.walk(s):
+                if isinstance(x, ast.Name) and isinstance(x.ctx, ast.Store):
+                    env.pop(x.id, None)
+
+        def holds_anchor(s):
+            return any(x is model.T or x is model.L for x in ast.walk(s))
+
+        def block(stmts):
+            for s in stmts:
+                sig = stmt(s)
+                if sig:
+                    return sig
+            return None
+
+        def loop(s):
+            n = 0
+            exited = None
+            if isinstance(s, ast.While):
+                while True:
+                    try:
+                        t = bool(model.value(s.test, env))
+                    except CannotEval as x:
+                        raise Unsupported(f"loop test `{short(s.test, 50)}` is not decided by the loop state: {x}")
+                    if not t:
+                        exited = "exhausted"
+                        break
+                    if n >= model.LIMIT:
+                        res["end"] = f"no end within {model.LIMIT} attempts"
+                        return "stop"
+                    n += 1
+                    sig = block(s.body)
+                    if sig in ("raise", "return", "stop"):
+                        return sig
+                    if sig == "break":
+                        exited = "break"
+                        break
+            else:
+                it = s.iter
+                try:
+                    if isinstance(it, ast.Call) and dotted(it.func) == "range" and 1 <= len(it.args) <= 3 and not it.keywords:
+                        vals = range(*[model.value(a_, env) for a_ in it.args])
+                    else:
+                        vals = model.value(it, env)
+                    vals = list(vals)
+                except (CannotEval, TypeError) as x:
+                    raise Unsupported(f"loop over `{short(it, 50)}` is not decided by the loop state: {x}")
+                exited = "exhausted"
+                for v in vals:
+                    if n >= model.LIMIT:
+                        res["end"] = f"no end within {model.LIMIT} attempts"
+                        return "stop"
+                    n += 1
+                    model._bind(s.target, v, env)
+                    sig = block(s.body)
+                    if sig in ("raise", "return", "stop"):
+                        return sig
+                    if sig == "break":
+                        exited = "break"
+                        break
+            if exited == "exhausted":
+                res["exhausted"] = True
+                return block(s.orelse)
+            return None
+
+        def stmt(s):
+            if s is model.T:
+                if s.finalbody:
+                    raise Unsupported("the retry try has a finally block")
+                res["states"].append(dict(env))
+                out = on_attempt(env)
+                res["pauses"].append(list(getattr(out, "sleeps", [])))
+                if out.kind == "raise":
+                    res["raise"] = out
+                    return "raise"
+                if out.kind in ("return", "break", "continue"):
+                    return out.kind
+                return "continue" if model.after_try() else None  # the rest of the loop body was interpreted together with the handler
+            if s is model.L:
+                return loop(s)
+            if isinstance(s, (ast.Import, ast.ImportFrom, ast.Pass, ast.Global, ast.Nonlocal, ast.Assert, ast.Expr, ast.FunctionDef, ast.AsyncFunctionDef, ast.ClassDef, ast.Delete)):
+                return None
+            if isinstance(s, (ast.Assign, ast.AugAssign)):
+                if model.on_stmt(s, env, {}) is None and not (isinstance(s, ast.Assign) and len(s.targets) == 1 and isinstance(s.targets[0], ast.Name)) \
+                        and not (isinstance(s, ast.AugAssign) and isinstance(s.target, ast.Name)):
+                    drop(s)
+                return None
+            if isinstance(s, ast.If):
+                try:
+                    t = bool(model.value(s.test, env))
+                except CannotEval as x:
+                    if holds_anchor(s):
+                        raise Unsupported(f"`if {short(s.test, 50)}` around the attempt is not decided by the loop state: {x}")
+                    if any(isinstance(x_, (ast.Return, ast.Raise, ast.Break, ast.Continue)) for x_ in ast.walk(s)):
+                        raise Unsupported(f"`if {short(s.test, 50)}` (with a jump) is not decided by the loop state: {x}")
+                    drop(s)
+                    return None
+                return block(s.body if t else s.orelse)
+            if isinstance(s, (ast.With, ast.AsyncWith)):
+                return block(s.body)
+            if isinstance(s, ast.Return):
+                return "return"
+            if isinstance(s, ast.Raise):
+                res["raise"] = Outcome("raise", s.exc, [], s)
+                return "raise"
+            if isinstance(s, ast.Break):
+                return "break"
+            if isinstance(s, ast.Continue):
+                return "continue"
+            if holds_anchor(s) or any(isinstance(x_, (ast.Return, ast.Raise, ast.Break, ast.Continue)) for x_ in ast.walk(s)):
+                raise Unsupported(f"statement kind {type(s).__name__} at line {getattr(s, 'lineno', '?')} around the attempt")
+            drop(s)
+            return None
+
+        sig = block(self.gd.body)
+        if res["end"] is None:
+            if sig == "raise":
+                res["end"] = "raise"
+            elif sig == "return":
+                res["end"] = "silent return after the loop" if res["exhausted"] else "return"
+            elif sig is None:
+                res["end"] = "silent loop exit (returns None)"
+            else:
+                res["end"] = str(sig)
+        return res
+
+
+class _After:
+    """Normal-completion paths through the statements that FOLLOW a given statement of a function, as written (if / else arms, try-else / finally, with, break / continue, the
+    end of a loop body, the end of the function): [(trail, kind, node)] with kind in return | raise | again (a loop runs again) | end (the function ends) | unsupported;
+    trail = the statements and branch tests passed on the way. loop_again(loop, trail) -> 'repeat' | 'exit' | 'unknown' decides what the loop does when its body completes."""
+
+    LIMIT = 96
+
+    def __init__(self, func, loop_again=None):
+        self.func = func
+        self.loop_again = loop_again or (lambda lp, trail: "repeat")
+        self.n = 0
+
+    def block(self, stmts, trail, k):
+        if not stmts:
+            return k(trail)
+        self.n += 1
+        if self.n > self.LIMIT:
+            return [(trail, "unsupported", stmts[0])]
+        s, rest = stmts[0], stmts[1:]
+
+        def nxt(tr):
+            return self.block(rest, tr, k)
+
+        if isinstance(s, ast.Return):
+            return [(trail, "return", s)]
+        if isinstance(s, ast.Raise):
+            return [(trail, "raise", s)]
+        if isinstance(s, (ast.Continue, ast.Break)):
+            lp = source.enclosing(s, _LOOPS)
+            if lp is None:
+                return [(trail, "unsupported", s)]
+            return self.loop_end(lp, trail) if isinstance(s, ast.Continue) else self.after(lp)(trail)
+        if isinstance(s, ast.If):
+            return self.block(s.body, trail + [s.test], nxt) + self.block(s.orelse, trail + [s.test], nxt)
+        if isinstance(s, (ast.Expr, ast.Assign, ast.AugAssign, ast.AnnAssign, ast.Pass, ast.Import, ast.ImportFrom, ast.Assert, ast.Delete, ast.Global, ast.Nonlocal)):
+            return nxt(trail + [s])
+        if isinstance(s, ast.With):
+            return self.block(s.body, trail + [i.context_expr for i in s.items], nxt)
+        return [(trail, "unsupported", s)]
+
+    def loop_end(self, lp, trail):
+        v = self.loop_again(lp, trail)
+        if v == "exit":
+            return self.block(lp.orelse, trail, self.after(lp))
+        return [(trail, "again" if v == "repeat" else "unsupported", lp)]
+
+    def after(self, node):
+        """continuation (trail -> paths) for the normal completion of statement `node`."""
+
+        def k(trail):
+            p = source.parent(node)
+            if p is None:
+                return [(trail, "unsupported", node)]
+            for field in ("body", "orelse", "finalbody"):
+                blk = getattr(p, field, None)
+                if isinstance(blk, list) and any(x is node for x in blk):
+                    i = [j for j, x in enumerate(blk) if x is node][0]
+                    return self.block(blk[i + 1:], trail, lambda tr: self.end_of(p, field, tr))
+            return [(trail, "unsupported", node)]
+
+        return k
+
+    def end_of(self, p, field, trail):
+        if p is self.func or isinstance(p, source.FUNC_TYPES):
+            return [(trail, "end", p)]
+        if isinstance(p, _LOOPS):
+            return self.loop_end(p, trail) if field == "body" else self.after(p)(trail)
+        if isinstance(p, ast.Try):
+            if field == "body":
+                return self.block(p.orelse, trail, lambda tr: self.block(p.finalbody, tr, self.after(p)))
+            if field == "orelse":
+                return self.block(p.finalbody, trail, self.after(p))
+            return self.after(p)(trail)
+        if isinstance(p, ast.ExceptHandler):
+            t = source.parent(p)
+            return self.block(t.finalbody, trail, self.after(t))
+        if isinstance(p, (ast.If, ast.With)):
+            return self.after(p)(trail)
+        return [(trail, "unsupported", p)]
+
 
 
 def run(chk):
@@ -53,11 +587,13 @@ def run(chk):
     H = Hierarchy()
     chk.trusted.append("library exception hierarchy parsed from " + ", ".join(sorted(__import__('os').path.basename(p) for p in H.files)))
     chk.explanation = (
-        "Decides the guard of the metrics-store client: routing (every use of the raw client goes through the guard), the try body (return target(...) once per iteration), "
-        "the retry budget by simulating the extracted counter comparisons (1 + 10 attempts, exhaustion ends in a raise, never a silent loop exit), exponential back-off in the "
-        "counter, and the classification of 17 outcome classes placed in the real (parsed) library hierarchy as a decision table (transient: retry with sleep while budget, then "
-        "Rally error; fatal: Rally error at once), with the retryable status set == {429,502,503,504}. O17.5 follows the raw Elasticsearch client (created by the client package's factory) "
-        "through esrally/client/factory.py and esrally/metrics.py and requires every request-sending call of the store module to run inside the guard."
+        "Decides the guard of the metrics-store client: routing (every use of the raw client goes through the guard), the attempt (one call target(*args, **kwargs) inside the try; every "
+        "path from its normal completion returns its value without another pass of the loop; nothing after it inside the try can raise what the handlers retry), the retry budget and "
+        "the back-off by interpreting the guard's own loop statements and handlers on values (while with a counter or for over a range; helper methods are entered with their "
+        "arguments bound): 1 + 10 attempts, exhaustion ends in a raise of a Rally error, never a silent loop exit, the pauses grow by a constant factor > 1; and the classification of 25 "
+        "outcome classes placed in the real (parsed) library hierarchy as a decision table (transient: retry with one pause while budget, then Rally error; fatal: Rally error at once), "
+        "with the set of retried statuses (400..599 fed through the handlers) == {429,502,503,504} for API errors and for bulk items. O17.5 follows the raw Elasticsearch client "
+        "(created by the client package's factory) through esrally/client/factory.py and esrally/metrics.py and requires every request-sending call of the store module to run inside the guard."
     )
     chk.not_decided = "partial success inside helpers.bulk (chunks already indexed are re-sent on retry), real back-off durations, faults of the client library itself."
     EC = met.cls("EsClient")
@@ -65,16 +601,44 @@ def run(chk):
     gd = em.get("guarded")
     if gd is None:
         raise AnchorMissing("EsClient.guarded")
-    loops = [n for n in walk_body(gd) if isinstance(n, ast.While)]
-    if not loops:
-        raise AnchorMissing("retry loop in EsClient.guarded")
-    L = loops[0]
-    trys = [n for n in L.body if isinstance(n, ast.Try)]
-    if not trys:
-        raise AnchorMissing("try in the retry loop")
-    T = trys[0]
-    defs = local_defs(gd)
-    tparam = params_of(gd)[1]
+    gparams = params_of(gd)
+    if len(gparams) < 2:
+        raise AnchorMissing("target parameter of EsClient.guarded")
+    tparam = gparams[1]
+    vararg = gd.args.vararg.arg if gd.args.vararg is not None else None
+    kwarg = gd.args.kwarg.arg if gd.args.kwarg is not None else None
+    # the attempt = the call of the target parameter; the retry try = the innermost try whose BODY holds it; the retry loop = the innermost loop (while / for) around that try
+    tcalls = [n for n in walk_body(gd) if isinstance(n, ast.Call) and isinstance(n.func, ast.Name) and n.func.id == tparam]
+    if not tcalls:
+        raise AnchorMissing("no call of the target parameter in EsClient.guarded (an attempt made by a helper is not recognised)")
+
+    def _anchors(c):
+        prev = c
+        for a in source.ancestors(c):
+            if a is gd:
+                return None
+            if isinstance(a, ast.Try) and any(prev is x for x in a.body):
+                for b_ in source.ancestors(a):
+                    if b_ is gd:
+                        return None
+                    if isinstance(b_, _LOOPS):
+                        return a, b_
+                return None
+            prev = a
+        return None
+
+    anchored = [(c, _anchors(c)) for c in tcalls if _anchors(c) is not None]
+    if not anchored:
+        raise AnchorMissing("retry loop in EsClient.guarded: the call of the target is not inside a try inside a loop")
+    call0, (T, L) = anchored[0]
+    model = _GuardModel(met, EC, gd, L, T)
+    # the raw client = the attribute(s) of the store client bound to the first constructor argument
+    init = em.get("__init__")
+    raw_attrs = set()
+    if init is not None and len(params_of(init)) > 1:
+        raw_attrs = {t.attr for n in walk_body(init) if isinstance(n, ast.Assign) and isinstance(n.value, ast.Name) and n.value.id == params_of(init)[1] for t in n.targets if is_self_attr(t)}
+    if not raw_attrs:
+        raise AnchorMissing("the attribute of EsClient that holds the raw client (bound to the first constructor argument)")
 
     # Rally error classes
     rally_errors = set()
@@ -94,62 +658,228 @@ def run(chk):
             work.extend(rally_bases.get(x, []))
         return False
 
+    import builtins as _bi
+
+    def raised_class(out, depth=0):
+        """('rally' | 'other' | 'unknown', name) of what a raise outcome raises: a class of the exceptions module (through a local, or built by a helper), something else, or not decided."""
+        v = out.value
+        b = getattr(out, "bindings", None) or {}
+        if v is None:
+            return "other", "a bare `raise` (the library exception itself)"
+        if isinstance(v, ast.Name):
+            if b.get(v.id) is not None and depth < 4:
+                o2 = Outcome("raise", b[v.id])
+                o2.bindings = b
+                return raised_class(o2, depth + 1)
+            if any(h_.name == v.id for h_ in T.handlers):
+                return "other", "the caught library exception"
+        f = v.func if isinstance(v, ast.Call) else v
+        d = dotted(f) or ""
+        name = d.split(".")[-1]
+        if name in rally_bases and (len(d.split(".")) == 1 or met.imports.get(d.split(".")[0], "").startswith("esrally")):
+            return ("rally" if is_rally_error(name) else "other"), name
+        m = model.helper_of(v) if isinstance(v, ast.Call) else None
+        if m is not None and depth < 4:
+            try:
+                o2, _env2 = model.call_helper(m, v, model.base_env(), want_outcome=True)
+            except (Unsupported, UnknownAtom, CannotEval, _Raised):
+                return "unknown", d
+            if o2.kind == "return" and o2.value is not None:
+                o3 = Outcome("raise", o2.value)
+                o3.bindings = getattr(o2, "bindings", {})
+                return raised_class(o3, depth + 1)
+            return "unknown", d
+        if d and (H.known(d) or (isinstance(getattr(_bi, name, None), type) and issubclass(getattr(_bi, name), BaseException) and len(d.split(".")) == 1)):
+            return "other", d
+        return "unknown", d or short(v, 40)
+
     # ---- O17.1 routing -----------------------------------------------------------------------------------------------------------------------
     chk.rule("O17.1", "in the store client every use of the raw client is a method value / argument handed to the guard (never called directly); the factory returns the wrapper; "
              "the ES-backed stores hold only the wrapper", 14,
              "an unguarded store call: a single transient fault aborts the race / loses metrics")
+    guard_call = f"self.{gd.name}"
     n_ops = 0
     for name, f in em.items():
-        if name in ("__init__", "guarded"):
+        if name == "__init__" or f is gd:
             continue
         for n in walk_body(f):
-            if isinstance(n, ast.Attribute) and is_self_attr(n, "_client") and isinstance(n.ctx, ast.Load):
+            if isinstance(n, ast.Attribute) and is_self_attr(n) and n.attr in raw_attrs and isinstance(n.ctx, ast.Load):
                 # climb to the outermost attribute chain
                 top = n
                 while isinstance(source.parent(top), ast.Attribute):
                     top = source.parent(top)
                 p = source.parent(top)
-                ok = isinstance(p, ast.Call) and u(p.func) == "self.guarded" and top in p.args
+                if _chain(top)[1][1:2] == ["transport"]:
+                    continue  # connection-pool bookkeeping of the transport (host / port for a message): no request is sent (same exemption as in O17.5)
+                ok = isinstance(p, ast.Call) and u(p.func) == guard_call and top in p.args
                 called = isinstance(p, ast.Call) and p.func is top
                 n_ops += 1
                 chk.ob("O17.1", f"EsClient.{name}: raw client use goes through the guard", ok, n, "called directly, bypassing the guard" if called else (f"{short(p, 70)}" if not ok else ""))
         # operations that delegate to another guarded op are fine (index -> bulk_index)
-    chk.ob("O17.1", "guarded operations located", n_ops >= 11, EC, f"{n_ops} raw-client uses in EsClient methods")
+    if n_ops >= 11:
+        chk.ob("O17.1", "guarded operations located", True, EC, f"{n_ops} raw-client uses in EsClient methods")
+    else:
+        chk.unknown("O17.1", f"only {n_ops} uses of the raw client located in the methods of EsClient (11 operations were confirmed by hand): the store client is not in a recognised shape", EC)
     F = met.cls("EsClientFactory")
-    cr = met.methods(F).get("create")
-    ok = cr is not None
-    if ok:
-        rets = [n for n in walk_body(cr) if isinstance(n, ast.Return)]
-        fdefs = local_defs(cr)
-        ok = bool(rets) and all(isinstance(source.inline_node(r.value, fdefs), ast.Call) and last_attr(source.inline_node(r.value, fdefs).func) == "EsClient" for r in rets)
-    chk.ob("O17.1", "the factory returns the wrapper", ok, cr if cr is not None else F, "")
+    # wrapper creators = the methods of the store module's factory every return of which is a construction of the wrapper (derived, whatever they are called)
+    creators, bad_ret = {}, []
+    for mname, mf in met.methods(F).items():
+        rets = [n for n in walk_body(mf) if isinstance(n, ast.Return) and n.value is not None]
+        fdefs = local_defs(mf)
+        vals = [source.inline_node(r.value, fdefs) for r in rets]
+        wraps = [isinstance(v, ast.Call) and last_attr(v.func) == EC.name for v in vals]
+        if rets and all(wraps):
+            creators[mname] = mf
+        elif any(wraps):
+            bad_ret.append((mf, [r for r, w in zip(rets, wraps) if not w][0]))
+    if not creators and not bad_ret:
+        chk.unknown("O17.1", "no method of EsClientFactory is recognised as returning a construction of the store client", F)
+    for mname, mf in creators.items():
+        chk.ob("O17.1", "the factory returns the wrapper", True, mf, "")
+    for mf, r in bad_ret:
+        chk.ob("O17.1", "the factory returns the wrapper", False, r, f"`{short(r, 60)}` returns something else than the wrapper")
     for cname in ("EsMetricsStore", "EsRaceStore", "EsResultsStore"):
         try:
             c = met.cls(cname)
         except AnchorMissing:
             continue
-        init = met.methods(c).get("__init__")
-        asg = [n for n in walk_body(init) if isinstance(n, ast.Assign) and any(is_self_attr(t, "_client") or is_self_attr(t, "client") for t in n.targets)] if init else []
-        ok = bool(asg) and all(isinstance(a.value, ast.Call) and last_attr(a.value.func) == "create" for a in asg)
-        chk.ob("O17.1", f"{cname} holds only the wrapper (client := factory.create())", ok, asg[0] if asg else c, short(asg[0], 80) if asg else "")
+        # the store's client attribute(s) = what a `<factory>.<creator>()` result is bound to anywhere in the class
+        asg = [n for n in ast.walk(c) if isinstance(n, ast.Assign) and any(is_self_attr(t) for t in n.targets) and isinstance(n.value, ast.Call) and isinstance(n.value.func, ast.Attribute)
+               and n.value.func.attr in (set(creators) or {"create"})]
+        held = {t.attr for a in asg for t in a.targets if is_self_attr(t)}
+        other = [n for n in ast.walk(c) if isinstance(n, ast.Assign) and any(is_self_attr(t) and t.attr in held for t in n.targets) and n not in asg
+                 and not (isinstance(n.value, ast.Constant) and n.value.value is None)]
+        if not asg:
+            chk.unknown("O17.1", f"{cname}: no attribute is bound to the result of the store-client factory's creator ({sorted(creators) or ['create']})", c)
+        else:
+            chk.ob("O17.1", f"{cname} holds only the wrapper (client := factory.create())", not other, other[0] if other else asg[0], short(other[0] if other else asg[0], 80))
         # and never reaches through the wrapper to the raw client
         for n in ast.walk(c):
-            if isinstance(n, ast.Attribute) and n.attr == "_client" and isinstance(n.value, ast.Attribute) and n.value.attr in ("_client", "client"):
+            if isinstance(n, ast.Attribute) and n.attr in raw_attrs and isinstance(n.value, ast.Attribute) and n.value.attr in (held or {"_client", "client"}):
                 chk.ob("O17.1", f"{cname} reaches through the wrapper to the raw client", False, n, u(n))
 
     # ---- O17.2 once per iteration ------------------------------------------------------------------------------------------------------------------
-    chk.rule("O17.2", "the try body is `return target(*args, **kwargs)`; there is no other call of target", 2, "a call repeated after it succeeded (duplicate metrics), or a result dropped")
-    ok = len(T.body) == 1 and isinstance(T.body[0], ast.Return) and isinstance(T.body[0].value, ast.Call) and u(T.body[0].value.func) == tparam \
-        and [u(a) for a in T.body[0].value.args] == ["*args"] and [k.arg for k in T.body[0].value.keywords] == [None]
-    chk.ob("O17.2", "try body returns target(*args, **kwargs)", ok, T.body[0], short(T.body[0], 60))
-    tcalls = [n for n in walk_body(gd) if isinstance(n, ast.Call) and u(n.func) == tparam]
-    chk.ob("O17.2", "single call site of target", len(tcalls) == 1, tcalls[0] if tcalls else gd, f"{len(tcalls)} call(s)")
+    chk.rule("O17.2", "the attempt is ONE call `target(*args, **kwargs)` inside the try: on every path from its normal completion the guard returns that call's value without running "
+             "the loop again, and nothing that runs after it inside the try can raise what the handlers retry; there is no other call of target", 2,
+             "a call repeated after it succeeded (duplicate metrics), or a result dropped")
+    s0 = source.enclosing_stmt(call0)
+    inst0 = "try body returns target(*args, **kwargs)"
+    passes = [u(a) for a in call0.args] == [f"*{vararg}"] and [(k.arg, u(k.value)) for k in call0.keywords] == [(None, kwarg)]
+    resvar = s0.targets[0].id if isinstance(s0, ast.Assign) and s0.value is call0 and len(s0.targets) == 1 and isinstance(s0.targets[0], ast.Name) else None
+    # what may run inside the try after the successful attempt: logging (receiver bound to logging.getLogger(...)), pure builtins, clock reads
+    logger_attrs = {t.attr for n in ast.walk(EC) if isinstance(n, ast.Assign) and isinstance(n.value, ast.Call) and (dotted(n.value.func) or "").endswith("getLogger") for t in n.targets if is_self_attr(t)}
+    logger_names = {t.id for n in met.tree.body if isinstance(n, ast.Assign) and isinstance(n.value, ast.Call) and (dotted(n.value.func) or "").endswith("getLogger") for t in n.targets if isinstance(t, ast.Name)}
+    PURE = {"getattr", "hasattr", "str", "repr", "len", "type", "isinstance", "int", "float", "bool", "max", "min", "round", "abs", "format", "id", "callable"}
+
+    def in_try(n):
+        prev = n
+        for a in source.ancestors(n):
+            if a is T:
+                return any(prev is x for x in T.body)
+            prev = a
+        return False
+
+    def call_kind(c):
+        """'harmless' | 'store' (sends a request / makes another attempt) | 'unknown'"""
+        f = c.func
+        d = dotted(f) or ""
+        root, names = _chain(f)
+        if isinstance(f, ast.Name) and f.id in PURE:
+            return "harmless"
+        if isinstance(f, ast.Attribute) and ((is_self_attr(f.value) and f.value.attr in logger_attrs) or (isinstance(f.value, ast.Name) and (f.value.id in logger_names or met.imports.get(f.value.id) == "logging"))
+                                             or (isinstance(f.value, ast.Call) and (dotted(f.value.func) or "").endswith("getLogger"))):
+            return "harmless"
+        if d.startswith("time.") and names and names[-1] in ("time", "perf_counter", "monotonic", "perf_counter_ns", "monotonic_ns", "time_ns"):
+            return "harmless"
+        if isinstance(root, ast.Name) and root.id == tparam:
+            return "store"
+        if isinstance(root, ast.Name) and root.id == "self" and names and (names[0] in raw_attrs or names[0] == gd.name):
+            return "store"
+        m = model.helper_of(c)
+        if m is not None:
+            inner = [call_kind(x) for x in ast.walk(m) if isinstance(x, ast.Call)]
+            return "store" if "store" in inner else ("harmless" if all(k == "harmless" for k in inner) else "unknown")
+        return "unknown"
+
+    def loop_again(lp, trail):
+        """what the retry loop does when its body completes after a SUCCESSFUL attempt: decided on values (loop state of the first attempt, representative truthy / falsy results)."""
+        if isinstance(lp, ast.For):
+            return "repeat"
+        if isinstance(lp.test, ast.Constant):
+            return "repeat" if lp.test.value else "exit"
+        try:
+            st0 = model.run_loop(model.idle_attempt)["states"]
+        except (Unsupported, UnknownAtom, CannotEval, _Raised):
+            return "unknown"
+        if not st0:
+            return "unknown"
+        verdicts = set()
+        for rep in ({}, {"acknowledged": True}, None, False, True):
+            env = dict(st0[0])
+            if resvar:
+                env[resvar] = rep
+            for st in trail:
+                if isinstance(st, (ast.Assign, ast.AugAssign)) and st is not s0:
+                    model.on_stmt(st, env, {})
+            try:
+                verdicts.add(bool(model.value(lp.test, env)))
+            except CannotEval:
+                return "unknown"
+        return "repeat" if True in verdicts else "exit"
+
+    walker = _After(gd, loop_again)
+    success_returns = []
+    if not passes:
+        chk.ob("O17.2", inst0, False, s0, f"`{short(call0, 60)}` does not hand the guard's own arguments (*{vararg}, **{kwarg}) through unchanged")
+    elif isinstance(s0, ast.Return) and s0.value is call0:
+        chk.ob("O17.2", inst0, True, s0, short(s0, 60))
+        success_returns.append(s0)
+    elif isinstance(s0, ast.Expr) and s0.value is call0:
+        chk.ob("O17.2", inst0, False, s0, f"`{short(s0, 60)}`: the result of the successful attempt is dropped")
+    elif resvar is None:
+        chk.unknown("O17.2", f"the attempt `{short(s0, 60)}` is neither returned nor bound to a local: what happens to the result is not decided", s0)
+    else:
+        bad, unk = None, None
+        for trail, kind, node in walker.after(s0)([]):
+            rebound = [st for st in trail if isinstance(st, ast.stmt) and any(isinstance(x, ast.Name) and x.id == resvar and isinstance(x.ctx, (ast.Store, ast.Del)) for x in ast.walk(st))]
+            for st in trail:
+                if not in_try(st):
+                    continue
+                for c_ in [x for x in ast.walk(st) if isinstance(x, ast.Call)]:
+                    k_ = call_kind(c_)
+                    if k_ == "store":
+                        bad = bad or (c_, f"`{short(c_, 50)}` runs inside the try after the attempt succeeded: if it fails with a retried error the handlers repeat the successful call")
+                    elif k_ == "unknown":
+                        unk = unk or (c_, f"`{short(c_, 50)}` runs inside the try after the successful attempt: whether it can raise an error that the handlers retry is not decided")
+            if kind == "return":
+                if isinstance(node.value, ast.Name) and node.value.id == resvar and not rebound:
+                    success_returns.append(node)
+                elif node.value is None or isinstance(node.value, ast.Constant):
+                    bad = bad or (node, f"after a successful attempt `{short(node, 40)}` is returned instead of the result `{resvar}`")
+                else:
+                    unk = unk or (node, f"after a successful attempt `{short(node, 50)}` is returned: not recognised as the result `{resvar}` of the attempt")
+            elif kind == "again":
+                bad = bad or (node, f"after a successful attempt (`{short(s0, 50)}`) the loop `{short(node.test if isinstance(node, ast.While) else node.iter, 50)}` can run again "
+                                    "(decided for a falsy and a truthy result): the call is repeated after success")
+            elif kind == "end":
+                bad = bad or (s0, f"after a successful attempt the function ends without returning `{resvar}`: the result is dropped")
+            elif kind == "raise":
+                unk = unk or (node, f"`{short(node, 50)}` after a successful attempt is not decided")
+            else:
+                unk = unk or (node, f"statement `{short(node, 50)}` after the successful attempt is not one of the enumerated forms")
+        if bad is not None:
+            chk.ob("O17.2", inst0, False, bad[0], bad[1])
+        elif unk is not None:
+            chk.unknown("O17.2", unk[1], unk[0])
+        else:
+            chk.ob("O17.2", inst0, True, s0, f"`{short(s0, 50)}`; every path from its normal completion reaches `return {resvar}` without another pass of the loop")
+    chk.ob("O17.2", "single call site of target", len(tcalls) == 1, tcalls[1] if len(tcalls) > 1 else tcalls[0], f"{len(tcalls)} call(s)")
 
     # a retry re-sends the SAME arguments: nothing single-use may be handed to the guard
     for name, f in em.items():
         fdefs2 = local_defs(f)
         for c in source.calls_in(f):
-            if u(c.func) == "self.guarded":
+            if u(c.func) == guard_call:
                 for a in list(c.args[1:]) + [k.value for k in c.keywords]:
                     e = source.inline_node(a, fdefs2) if not isinstance(a, ast.Starred) else a
                     single = isinstance(e, ast.GeneratorExp) or (isinstance(e, ast.Call) and dotted(e.func) in ("filter", "map", "iter", "zip", "reversed", "enumerate", "itertools.chain", "itertools.islice"))
@@ -188,7 +918,7 @@ def run(chk):
 
     for name, f in em.items():
         for c in source.calls_in(f):
-            if u(c.func) == "self.guarded" and c.args:
+            if u(c.func) == guard_call and c.args:
                 tgt = dotted(c.args[0]) or ""
                 isgen = _lib_generator(tgt) if tgt.startswith("elasticsearch.helpers.") else False
                 iterated = isinstance(source.parent(c), (ast.For, ast.AsyncFor, ast.comprehension)) and getattr(source.parent(c), "iter", None) is c
@@ -205,7 +935,7 @@ def run(chk):
     n_g = 0
     for name, f in em.items():
         for c in source.calls_in(f):
-            if u(c.func) == "self.guarded":
+            if u(c.func) == guard_call:
                 n_g += 1
                 on = [k.arg for k in c.keywords if k.arg in LIB_RETRY and not (isinstance(k.value, ast.Constant) and k.value.value in (0, False, None))]
                 chk.ob("O17.2", f"EsClient.{name}: no second retry layer below the guard", not on, c,
@@ -217,72 +947,46 @@ def run(chk):
     flush_no_fallible_gap(chk, "O17.2", met)
 
     # ---- O17.3 budget and back-off ------------------------------------------------------------------------------------------------------------------------
-    chk.rule("O17.3", "counter starts at 0 and is incremented exactly once per iteration before the attempt; simulating the extracted loop/handler comparisons gives 1 + 10 attempts and "
-             "exhaustion ends in a raise (never a silent loop exit); the sleep duration is exponential in the counter and every retry path sleeps it", 6,
+    chk.rule("O17.3", "interpreting the statements of the guard on values (while with a counter or for over a range alike): the attempt counter is a local that starts with the first "
+             "attempt and advances by one per attempt; a persistent transient fault gives 1 + 10 attempts and exhaustion ends in a raise (never a silent loop exit or a stale return "
+             "after the loop); the pauses slept between the attempts grow exponentially", 6,
              "fewer/more than ten retries, a silently returned None after the last retry, or constant/linear back-off")
-    lc = comparison(L.test)
-    if lc is None:
-        raise AnchorMissing("loop guard comparison in EsClient.guarded")
-    cnt = u(lc[0]) if u(lc[0]) in [n.targets[0].id for n in walk_body(gd) if isinstance(n, ast.Assign) and isinstance(n.targets[0], ast.Name)] + [n.target.id for n in walk_body(gd) if isinstance(n, ast.AugAssign) and isinstance(n.target, ast.Name)] else None
-    incs = [n for n in walk_body(gd) if isinstance(n, ast.AugAssign) and isinstance(n.target, ast.Name)]
-    if incs:
-        cnt = incs[0].target.id
-    if cnt is None:
-        raise AnchorMissing("attempt counter in EsClient.guarded")
-    inits = [n for n in walk_body(gd) if isinstance(n, ast.Assign) and isinstance(n.targets[0], ast.Name) and n.targets[0].id == cnt]
-    g = cfg_of(gd)
-    ok = len(inits) == 1 and source.is_const(inits[0].value, 0) and L not in list(source.ancestors(inits[0]))
-    chk.ob("O17.3", "counter starts at 0", ok, inits[0] if inits else gd, "")
-    cincs = [n for n in incs if n.target.id == cnt]
-    ok = len(cincs) == 1 and isinstance(cincs[0].op, ast.Add) and source.is_const(cincs[0].value, 1) and source.parent(cincs[0]) is L and L.body.index(cincs[0]) < L.body.index(T)
-    chk.ob("O17.3", "counter += 1 exactly once per iteration, before the attempt", ok, cincs[0] if cincs else L, f"{len(cincs)} increment(s)")
+    SIM_ERR = (Unsupported, UnknownAtom, CannotEval, _Raised)
+    states = []
+    try:
+        states = model.run_loop(model.idle_attempt)["states"]
+    except SIM_ERR as x:
+        chk.unknown("O17.3", f"the loop state of the guard is not decided by interpreting its statements: {x}", L)
 
-    def const_of(e):
-        e = defs.get(e.id, e) if isinstance(e, ast.Name) else e
-        return e.value if isinstance(e, ast.Constant) and isinstance(e.value, int) else None
+    def _ints(sts):
+        names = [k for k in sts[0] if not k.startswith("__") and all(isinstance(st.get(k), int) and not isinstance(st.get(k), bool) for st in sts)] if sts else []
+        var = [k for k in names if any(sts[i + 1][k] != sts[i][k] for i in range(len(sts) - 1))]
+        return var, [k for k in var if all(sts[i + 1][k] - sts[i][k] == 1 for i in range(len(sts) - 1))]
 
-    def cmp_fn(test):
-        """function c -> bool for a comparison between the counter and an integer constant; None otherwise."""
-        c = comparison(test)
-        if c is None:
-            return None
-        l, op, r = c
-        if u(l) == cnt and const_of(r) is not None and op in _OPS:
-            k = const_of(r)
-            return lambda v: _OPS[op](v, k)
-        if u(r) == cnt and const_of(l) is not None and op in _OPS:
-            k = const_of(l)
-            return lambda v: _OPS[op](k, v)
-        return None
+    # placeholders filled below, after the handlers are known (a counter advanced by the handlers themselves is seen only in a simulated fault sequence)
+    counter_obligations = []
 
-    loop_ok = cmp_fn(L.test)
-    budget_tests = []
-    for h in T.handlers:
-        for n in ast.walk(h):
-            if isinstance(n, (ast.If,)):
-                for a in ([n.test] if not isinstance(n.test, ast.BoolOp) else n.test.values):
-                    if cmp_fn(a) is not None:
-                        budget_tests.append((h, a))
-    if loop_ok is None or not budget_tests:
-        chk.unknown("O17.3", "loop guard / handler budget tests are not comparisons of the counter with an integer constant", L)
-    tail = gd.body[gd.body.index(L) + 1:] if L in gd.body else []
-    chk.ob("O17.3", "nothing after the loop (no stale return)", not tail and not L.orelse, tail[0] if tail else L, "")
-    # back-off
-    slp = None
-    for n in L.body:
-        if isinstance(n, ast.Assign) and isinstance(n.targets[0], ast.Name) and any(isinstance(x, ast.Name) and x.id == cnt for x in ast.walk(n.value)):
-            slp = n
-    ok = False
-    detail = "no per-iteration sleep duration derived from the counter"
-    if slp is not None:
-        expo = [x for x in ast.walk(slp.value) if (isinstance(x, ast.BinOp) and isinstance(x.op, ast.Pow) and isinstance(x.left, ast.Constant) and isinstance(x.left.value, (int, float)) and x.left.value > 1 and u(x.right) == cnt)
-                or (isinstance(x, ast.BinOp) and isinstance(x.op, ast.LShift) and source.is_const(x.left, 1) and u(x.right) == cnt)
-                or (isinstance(x, ast.Call) and dotted(x.func) in ("pow", "math.pow") and len(x.args) == 2 and isinstance(x.args[0], ast.Constant) and x.args[0].value > 1 and u(x.args[1]) == cnt)]
-        # the exponential must be an additive/multiplicative top-level part (not divided away)
-        ok = bool(expo) and L.body.index(slp) < L.body.index(T)
-        detail = f"{short(slp, 70)}"
-    chk.ob("O17.3", "sleep duration exponential in the counter", ok, slp if slp is not None else L, detail)
-    sleepvar = slp.targets[0].id if slp is not None else None
+    def counter_rules(sts):
+        varying, counters = _ints(sts)
+        if len(sts) < 2 or not varying:
+            chk.unknown("O17.3", "no attempt counter located: no integer local of the guard changes from one attempt to the next", L)
+            return
+        cnt = (counters or varying)[0]
+        first = sts[0][cnt]
+        site = next((n for n in walk_body(gd) if isinstance(n, ast.Name) and n.id == cnt and isinstance(n.ctx, ast.Store)), L)
+        chk.ob("O17.3", "counter starts at 0", first in (0, 1), site, f"the first attempt sees {cnt} == {first} (expected 1, or 0 for a zero-based range)")
+        chk.ob("O17.3", "counter += 1 exactly once per iteration, before the attempt", bool(counters), site,
+               f"consecutive attempts see {cnt} == {[st[cnt] for st in sts[:6]]}..." + ("" if counters else ": it does not advance by exactly one per attempt"))
+
+    # nothing after the loop may turn an exhausted budget into a normal return
+    exit_paths = _After(gd).block(list(L.orelse), [], _After(gd).after(L))
+    stale = [(k_, n_) for tr_, k_, n_ in exit_paths if k_ not in ("end", "raise") and not (k_ == "return" and any(n_ is r for r in success_returns))]
+    odd = [(k_, n_) for k_, n_ in stale if k_ != "return"]
+    if odd:
+        chk.unknown("O17.3", f"statement `{short(odd[0][1], 50)}` after the retry loop is not one of the enumerated forms", odd[0][1])
+    else:
+        chk.ob("O17.3", "nothing after the loop (no stale return)", not stale, stale[0][1] if stale else L,
+               "" if not stale else f"`{short(stale[0][1], 50)}` after the loop: when the loop ends without a successful attempt the guard returns normally instead of raising")
 
     # ---- O17.4 classification -------------------------------------------------------------------------------------------------------------------------------
     chk.rule("O17.4", "classification over the real hierarchy: connection timeout / connection error / bulk error with only retryable item statuses / API error with status in "
@@ -298,12 +1002,17 @@ def run(chk):
     if prq is None:
         raise AnchorMissing("RallySyncElasticsearch.perform_request")
     unp_ = [n for n in walk_body(prq) if isinstance(n, ast.Assign) and isinstance(n.targets[0], ast.Tuple) and len(n.targets[0].elts) == 2 and isinstance(n.value, ast.Call)
-            and u(n.value.func) == "self.transport.perform_request"]
+            and last_attr(n.value.func) == "perform_request" and isinstance(n.targets[0].elts[1], ast.Name)]
     if not unp_:
-        raise AnchorMissing("meta, body = self.transport.perform_request(...) in the synchronous client")
+        raise AnchorMissing("meta, body = <transport>.perform_request(...) in the synchronous client")
     bodyv = unp_[0].targets[0].elts[1].id
-    araise = [n for n in walk_body(prq) if isinstance(n, ast.Raise) and n.exc is not None and "HTTP_EXCEPTIONS" in u(n.exc) and n.lineno > unp_[0].lineno]
-    chk.ob("O17.4", "sync client: a non-2xx answer is raised as HTTP_EXCEPTIONS.get(status, ApiError)", len(araise) == 1, araise[0] if araise else prq, "")
+    pdefs = local_defs(prq)
+    araise = [n for n in walk_body(prq) if isinstance(n, ast.Raise) and n.exc is not None and n.lineno > unp_[0].lineno
+              and any(w_ in source.inline(n.exc, pdefs) for w_ in ("HTTP_EXCEPTIONS", "ApiError"))]
+    if araise:
+        chk.ob("O17.4", "sync client: a non-2xx answer is raised as HTTP_EXCEPTIONS.get(status, ApiError)", True, araise[0], short(araise[0], 80))
+    else:
+        chk.unknown("O17.4", "sync client: the raise that turns a non-2xx answer into an API error (HTTP_EXCEPTIONS / ApiError) is not located after the transport call", prq)
     uses = [x for x in walk_body(prq) if isinstance(x, (ast.Attribute, ast.Subscript)) and isinstance(x.value, ast.Name) and x.value.id == bodyv and araise and unp_[0].lineno < x.lineno < araise[0].lineno]
     for x in uses:
         tr_ = source.enclosing(x, ast.Try)
@@ -313,14 +1022,16 @@ def run(chk):
                "" if ok else f"a non-JSON error body raises AttributeError here (handlers cover only {sorted(caught)}): the error escapes as a bare Python error that the guard neither retries nor converts",
                key=f"esrally/client/synchronous.py:RallySyncElasticsearch.perform_request:body-as-dict:{short(x, 30)}")
 
-    init = em.get("__init__")
-    sets = [n for n in walk_body(init) if isinstance(n, ast.Assign) and any(is_self_attr(t, "retryable_status_codes") for t in n.targets)]
-    ok = len(sets) == 1 and isinstance(sets[0].value, (ast.List, ast.Set, ast.Tuple)) and all(isinstance(e, ast.Constant) for e in sets[0].value.elts) and {e.value for e in sets[0].value.elts} == RETRYABLE
-    chk.ob("O17.4", "retryable status set == {429, 502, 503, 504}", ok, sets[0] if sets else init, short(sets[0], 70) if sets else "")
-    others = [n for n in ast.walk(met.tree) if isinstance(n, (ast.Assign, ast.AugAssign)) and any(isinstance(t, ast.Attribute) and t.attr == "retryable_status_codes" for t in (n.targets if isinstance(n, ast.Assign) else [n.target])) and n not in sets]
-    others += [n for n in ast.walk(met.tree) if isinstance(n, ast.Call) and isinstance(n.func, ast.Attribute) and n.func.attr in ("append", "extend", "add", "remove") and last_attr(n.func.value) == "retryable_status_codes"]
-    chk.ob("O17.4", "retryable status set never modified", not others, others[0] if others else EC, "")
-    code_set = {e.value for e in sets[0].value.elts} if sets and isinstance(sets[0].value, (ast.List, ast.Set, ast.Tuple)) and all(isinstance(e, ast.Constant) for e in sets[0].value.elts) else set(RETRYABLE)
+    # the classification reads attributes of the store client that the class binds to a literal (the retryable set, whatever it is called): none of them may be modified
+    # (bound to a literal by the constructor or in the class body; a local state that the guard itself keeps on self is not meant)
+    lit_attrs = {t.attr for n in (walk_body(init) if init is not None else []) if isinstance(n, ast.Assign) and source._pure_literal(n.value) for t in n.targets if is_self_attr(t)} \
+        | {t.id for n in EC.body if isinstance(n, ast.Assign) and source._pure_literal(n.value) for t in n.targets if isinstance(t, ast.Name)}
+    read_attrs = sorted({n.attr for f in model.closure() for n in walk_body(f) if isinstance(n, ast.Attribute) and is_self_attr(n) and isinstance(n.ctx, ast.Load) and n.attr in lit_attrs})
+    others = []
+    for a_ in read_attrs:
+        binds = [n for n in ast.walk(met.tree) if isinstance(n, (ast.Assign, ast.AugAssign)) and any(isinstance(t, ast.Attribute) and t.attr == a_ for t in (n.targets if isinstance(n, ast.Assign) else [n.target]))]
+        others += [n for n in binds if n is not model.attr_sites.get(a_)] if a_ in model.attr_sites else binds[1:]
+        others += [n for n in ast.walk(met.tree) if isinstance(n, ast.Call) and isinstance(n.func, ast.Attribute) and n.func.attr in _MUTATORS and last_attr(n.func.value) == a_]
     handlers = [(h, handler_type_names(h, met)) for h in T.handlers]
     # `from elastic_transport import ApiError, TransportError` inside the function
     local_imp = {}
@@ -340,62 +1051,35 @@ def run(chk):
                 return h, names
         return None, None
 
-    LOGLEVEL = {"debug": True}  # the log level is a FREE variable of the classification: every case is decided for both values and must not depend on it
+    def retries(o):
+        return o.kind in ("fallthrough", "continue")
 
-    def interpret(h, status, c):
-        ev = h.name
+    # the retryable statuses, decided on VALUES: every status 400..599 is fed through the handler that Python selects for an API error / through the bulk handler as the status of
+    # the single failed item, in the state of the first attempt (budget left); the set of statuses that are retried must be exactly {429, 502, 503, 504}
+    set_site = next((model.attr_sites[a_] for a_ in read_attrs if a_ in model.attr_sites), None)
+    for what, cls_, mk in (("retryable status set == {429, 502, 503, 504}", "elasticsearch.ApiError", lambda s_: s_),
+                           ("retryable bulk item status set == {429, 502, 503, 504}", "elasticsearch.helpers.BulkIndexError", lambda s_: ("item", s_))):
+        h, names = select(cls_)
+        if h is None or not states:
+            continue
+        try:
+            got = {s_ for s_ in range(400, 600) if retries(model.interpret(h, mk(s_), dict(states[0])))}
+        except SIM_ERR as x:
+            chk.unknown("O17.4", f"handler `except {', '.join(names)}` is not a decision over (loop state, status): {x}", h)
+            continue
+        chk.ob("O17.4", what, got == RETRYABLE, set_site if set_site is not None else h,
+               (short(set_site, 70) if set_site is not None else f"except {', '.join(names)}") + ("" if got == RETRYABLE else f": the statuses retried while budget is left are {sorted(got)}"))
+    chk.ob("O17.4", "retryable status set never modified", not others, others[0] if others else (set_site if set_site is not None else EC),
+           "" if not others else f"`{short(others[0], 60)}` changes what the classification reads")
 
-        def atom(n, env):
-            t = u(n)
-            if isinstance(n, ast.Call) and last_attr(n.func) in ("isEnabledFor", "isDebugEnabled"):
-                return LOGLEVEL["debug"]
-            if cmp_fn(n) is not None:
-                return cmp_fn(n)(c)
-            if ev and t in (f"{ev}.status_code in self.retryable_status_codes",):
-                return status in code_set
-            if ev and t in (f"{ev}.status_code not in self.retryable_status_codes",):
-                return status not in code_set
-            if isinstance(n, ast.Compare) and len(n.ops) == 1 and isinstance(status, tuple) and ".get('status'" in u(n.left):
-                # item-level test inside the bulk handler's loop, evaluated for the single failed item of this abstract case
-                item = status[1]
-                cmpv = n.comparators[0]
-                if u(cmpv) == "self.retryable_status_codes":
-                    rhs = set(code_set)
-                elif isinstance(cmpv, ast.Constant):
-                    rhs = cmpv.value
-                elif isinstance(cmpv, (ast.List, ast.Tuple, ast.Set)) and all(isinstance(e, ast.Constant) for e in cmpv.elts):
-                    rhs = {e.value for e in cmpv.elts}
-                else:
-                    return None
-                op = n.ops[0]
-                if isinstance(op, ast.In) and isinstance(rhs, set):
-                    return item in rhs
-                if isinstance(op, ast.NotIn) and isinstance(rhs, set):
-                    return item not in rhs
-                if isinstance(op, ast.Eq) and not isinstance(rhs, set):
-                    return item == rhs
-                if isinstance(op, ast.NotEq) and not isinstance(rhs, set):
-                    return item != rhs
-                return None
-            if ev and t in (f"{ev}.errors", "e.errors"):
-                return True
-            return None
+    def describe(o):
+        if retries(o):
+            return "retry" + (f" after sleeping {o.sleeps}" if o.sleeps else " WITHOUT sleeping")
+        return o.text()
 
-        def on_stmt(s, env, b):
-            if isinstance(s, ast.For):
-                # search-loop idiom: for item in items: if P(item): raise  ==> raise iff some item satisfies P
-                out = decide(s.body, atom, env, b, on_stmt)
-                if out.kind == "raise":
-                    return out
-                if out.kind in ("fallthrough", "continue"):
-                    return "skip"
-                raise Unsupported(f"loop body outcome {out.kind}")
-            return None
-
-        return decide(h.body, atom, {}, on_stmt=on_stmt)
-
-    # counter values inside the handler: 1 = first attempt, 10 = tenth attempt (one retry left), 11 = the attempt after the tenth retry (budget exhausted)
+    # attempts 1 and 10 (budget left; 10 = the last retry) and 11 (the attempt after the tenth retry: budget exhausted), each in the loop state that the guard itself produces
     simulated = set()
+    elsewhere = model.sleeps_outside_handlers()
     for label, cls, status, kind in CASES:
         h, names = select(cls)
         for c, budget in ((1, True), (10, True), (11, False)):
@@ -404,59 +1088,103 @@ def run(chk):
             if h is None:
                 chk.ob("O17.4", inst, False, T, "no handler matches: the library exception escapes unconverted (not a Rally error)", key=key)
                 continue
+            if len(states) < c:
+                continue  # the loop itself ends earlier: reported by the attempt count of O17.3
             try:
-                LOGLEVEL["debug"] = True
-                out = interpret(h, status, c)
-                LOGLEVEL["debug"] = False
-                out_q = interpret(h, status, c)
-                LOGLEVEL["debug"] = True
-            except (Unsupported, UnknownAtom) as e:
-                LOGLEVEL["debug"] = True
-                chk.unknown("O17.4", f"handler `except {', '.join(names)}` is not a decision over (counter, status class): {e}", h)
+                out, out_q = model.interpret_both(h, status, states[c - 1])
+            except SIM_ERR as e:
+                chk.unknown("O17.4", f"handler `except {', '.join(names)}` is not a decision over (loop state, status class): {e}", h)
                 continue
-            sl_q = [e for e in out_q.effects if isinstance(e, ast.Call) and dotted(e.func) == "time.sleep"]
-            if (out_q.kind, len(sl_q)) != (out.kind, len([e for e in out.effects if isinstance(e, ast.Call) and dotted(e.func) == "time.sleep"])):
-                chk.ob("O17.4", inst, False, h, f"attempt {c}: the outcome depends on the log level: with DEBUG enabled {out.text()[:40]} / {len([e for e in out.effects if isinstance(e, ast.Call) and dotted(e.func) == 'time.sleep'])} sleep(s), "
-                       f"otherwise {out_q.text()[:40]} / {len(sl_q)} sleep(s) — at the shipped INFO level the retries fire without the pause", key=key)
+            if (retries(out_q), out_q.kind if not retries(out_q) else "", len(out_q.sleeps)) != (retries(out), out.kind if not retries(out) else "", len(out.sleeps)):
+                chk.ob("O17.4", inst, False, h, f"attempt {c}: the outcome depends on the log level: with DEBUG enabled {out.text()[:40]} / {len(out.sleeps)} sleep(s), "
+                       f"otherwise {out_q.text()[:40]} / {len(out_q.sleeps)} sleep(s) — at the shipped INFO level the retries fire without the pause", key=key)
                 continue
-            sleeps = [e for e in out.effects if isinstance(e, ast.Call) and dotted(e.func) == "time.sleep"]
             if kind == "transient" and budget:
-                ok = out.kind == "fallthrough" and len(sleeps) == 1 and sleepvar is not None and u(sleeps[0].args[0]) == sleepvar
-                want = f"retry after time.sleep({sleepvar})"
+                if retries(out) and not out.sleeps and elsewhere:
+                    chk.unknown("O17.4", f"{inst}: the pause of a retry is not made by the handler or behind the try (`{short(elsewhere[0], 40)}`): this shape is not modelled", elsewhere[0])
+                    continue
+                if retries(out) and len(out.sleeps) == 1 and out.sleeps[0] is None:
+                    chk.unknown("O17.4", f"{inst}: the duration slept by `except {', '.join(names)}` is not decided by the loop state", h)
+                    continue
+                ok = retries(out) and len(out.sleeps) == 1 and out.sleeps[0] > 0
+                want = "retry after one pause"
             else:
-                rc = last_attr(out.value.func) if out.kind == "raise" and isinstance(out.value, ast.Call) else None
-                ok = out.kind == "raise" and rc is not None and is_rally_error(rc) and not sleeps
+                rk, rn = raised_class(out) if out.kind == "raise" else ("other", None)
+                if out.kind == "raise" and rk == "unknown":
+                    chk.unknown("O17.4", f"{inst}: `{short(out.node if out.node is not None else h, 60)}`: the class of what is raised ({rn}) is not decided", out.node if out.node is not None else h)
+                    continue
+                ok = out.kind == "raise" and rk == "rally" and not out.sleeps
                 want = "raise a Rally error"
-            got = out.text() if out.kind != "fallthrough" else ("retry" + (f" after {u(sleeps[0])}" if sleeps else " WITHOUT sleeping"))
-            chk.ob("O17.4", inst, ok, h, f"attempt {c}: selected `except {', '.join(names)}` -> {got[:90]}; expected: {want}", key=key)
-        # O17.3: whole-loop simulation for this transient class (loop guard on the counter before the increment, handler decision after it)
-        if kind == "transient" and h is not None and loop_ok is not None and (id(h), str(status)) not in simulated:
+            chk.ob("O17.4", inst, ok, h, f"attempt {c}: selected `except {', '.join(names)}` -> {describe(out)[:90]}; expected: {want}", key=key)
+        # O17.3: whole-loop simulation of a persistent fault of this transient class (the guard's own loop statements and the handler's own decisions)
+        if kind == "transient" and h is not None and (id(h), str(status)) not in simulated:
             simulated.add((id(h), str(status)))
-            cval, attempts, end = 0, 0, None
             try:
-                while attempts < 1000:
-                    if not loop_ok(cval):
-                        end = "silent loop exit (returns None)"
-                        break
-                    cval += 1
-                    attempts += 1
-                    o = interpret(h, status, cval)
-                    if o.kind != "fallthrough":
-                        end = o.kind
-                        break
-            except (Unsupported, UnknownAtom) as e:
-                end = None
-            if end is not None:
-                chk.ob("O17.3", f"1 + 10 attempts, then a raise: {label}", attempts == 11 and end == "raise", h, f"simulated `{u(L.test)}` with the handler's own tests: {attempts} attempt(s), ends by {end}",
-                       key=f"{_M}:EsClient.guarded:attempts:{label}")
+                sim = model.run_loop(lambda env, h=h, status=status: model.interpret(h, status, env))
+            except SIM_ERR as e:
+                chk.unknown("O17.3", f"a persistent fault `{label}` is not simulated: {e}", h)
+                continue
+            if not counter_obligations:
+                counter_obligations.append(True)
+                counter_rules(states if _ints(states)[0] else sim["states"])
+            attempts, end = len(sim["states"]), sim["end"]
+            ok = attempts == 11 and end == "raise"
+            if ok:
+                rk, rn = raised_class(sim["raise"])
+                if rk == "unknown":
+                    chk.unknown("O17.3", f"{label}: the class raised when the retries are exhausted ({rn}) is not decided", h)
+                    continue
+                ok = rk == "rally"
+                end = f"raise {rn}"
+            chk.ob("O17.3", f"1 + 10 attempts, then a raise: {label}", ok, h, f"simulated `{short(L.test if isinstance(L, ast.While) else L.iter, 50)}` with the handler's own tests: {attempts} attempt(s), ends by {end}",
+                   key=f"{_M}:EsClient.guarded:attempts:{label}")
+            # the pauses between the attempts of this fault sequence, by value (jitter fixed to its lower, then to its upper bound)
+            verdict = None
+            for jit in (0.0, 1.0):
+                model.jitter = jit
+                try:
+                    sj = sim if jit == 0.0 else model.run_loop(lambda env, h=h, status=status: model.interpret(h, status, env))
+                except SIM_ERR:
+                    sj = None
+                finally:
+                    model.jitter = 0.0
+                if sj is None:
+                    continue
+                pauses = sj["pauses"][:-1] if sj["end"] == "raise" else sj["pauses"]
+                if len(pauses) < 2:
+                    verdict = verdict or ("skip", "")
+                    continue
+                if any(len(p_) == 1 and p_[0] is None for p_ in pauses):
+                    verdict = ("unknown", "the duration slept is not decided by the loop state")
+                    break
+                seq = [p_[0] if len(p_) == 1 else None for p_ in pauses]
+                if elsewhere and any(not p_ for p_ in pauses):
+                    verdict = ("unknown", f"the pause of a retry is not made by the handler or behind the try (`{short(elsewhere[0], 40)}`): this shape is not modelled")
+                    break
+                if any(v_ is None or v_ <= 0 for v_ in seq):
+                    if verdict is None or verdict[0] != "bad":
+                        verdict = ("bad", f"pauses per retry: {[p_ for p_ in pauses][:6]}... (every retry needs exactly one positive pause)")
+                    continue
+                ratios = [seq[i + 1] / seq[i] for i in range(len(seq) - 1)]
+                if ratios[0] > 1 and all(abs(r_ - ratios[0]) < 1e-9 for r_ in ratios):
+                    verdict = ("ok", f"pauses {seq[:4]}... grow by the factor {ratios[0]:g}")
+                    break
+                if verdict is None or verdict[0] != "bad":
+                    verdict = ("bad", f"pauses {seq[:5]}... do not grow by a constant factor > 1")
+            if verdict is None or verdict[0] == "unknown":
+                chk.unknown("O17.3", f"{label}: {verdict[1] if verdict else 'the pauses are not decided'}", h)
+            elif verdict[0] != "skip":
+                chk.ob("O17.3", f"sleep duration exponential in the counter: {label}", verdict[0] == "ok", h, verdict[1], key=f"{_M}:EsClient.guarded:backoff:{label}")
+    if not counter_obligations:
+        counter_rules(states)
     # the error path itself must not fail: every %-formatted message of the guard takes a tuple LITERAL with one element per placeholder (a bare operand that can itself be a
     # tuple, like the transport's collected errors, is unpacked as the argument list -> TypeError instead of the Rally error that names the cause)
-    for n in walk_body(gd):
+    import re as _re17
+    for n in [x for f_ in model.closure() for x in walk_body(f_)]:
         if isinstance(n, ast.BinOp) and isinstance(n.op, ast.Mod) and isinstance(n.left, (ast.Constant, ast.JoinedStr)):
             ltxt = "".join(str(v.value) for v in n.left.values if isinstance(v, ast.Constant)) if isinstance(n.left, ast.JoinedStr) else n.left.value
             if not isinstance(ltxt, str):
                 continue
-            import re as _re17
             nph = len(_re17.findall(r"%[-#0 +]*\d*(?:\.\d+)?[sdrfxi]", ltxt.replace("%%", "")))
             ok = isinstance(n.right, ast.Tuple) and len(n.right.elts) == nph and not any(isinstance(e_, ast.Starred) for e_ in n.right.elts)
             chk.ob("O17.4", f"message at line {n.lineno}: {nph} placeholder(s) filled from a tuple literal of the same length", ok, n, f"right operand: {short(n.right, 70)}",
@@ -464,15 +1192,15 @@ def run(chk):
     # dead arms must agree with their shadow
     for i, (h, names) in enumerate(handlers):
         shadows = [hh for hh, pn in handlers[:i] if all(H.catches(pn, nm) for nm in names)] if i else []
-        if shadows:
+        if shadows and len(states) >= 11:
             def sig(hh):
                 rows = []
                 for st in (429, 401, None):
-                    for b in (True, False):
+                    for c in (1, 11):
                         try:
-                            o = interpret(hh, st, b)
-                            rows.append((o.kind, last_attr(o.value.func) if o.kind == "raise" and isinstance(o.value, ast.Call) else None))
-                        except (Unsupported, UnknownAtom):
+                            o = model.interpret(hh, st, dict(states[c - 1]))
+                            rows.append(("retry", len(o.sleeps)) if retries(o) else (o.kind, raised_class(o)[1] if o.kind == "raise" else None))
+                        except SIM_ERR:
                             rows.append("?")
                 return rows
 
@@ -481,13 +1209,13 @@ def run(chk):
     # authentication / authorization name the cause (setup error)
     for nm in ("elasticsearch.AuthenticationException", "elasticsearch.AuthorizationException"):
         h, names = select(nm)
-        if h is not None:
+        if h is not None and states:
             try:
-                o = interpret(h, 401, True)
-                rc = last_attr(o.value.func) if o.kind == "raise" and isinstance(o.value, ast.Call) else None
+                o = model.interpret(h, 401, dict(states[0]))
+                rc = raised_class(o)[1] if o.kind == "raise" else None
                 if rc != "SystemSetupError":
                     chk.adv("O17.4", f"{nm.split('.')[-1]} surfaces as {rc} rather than SystemSetupError", h)
-            except (Unsupported, UnknownAtom):
+            except SIM_ERR:
                 pass
 
     _store_requests_guarded(chk, repo, met, EC, gd)
@@ -881,6 +1609,37 @@ def _store_requests_guarded(chk, repo, met, EC, gd):
 
 from sa.selftest import V  # noqa: E402
 
+_GUARD_DEF = "    def guarded(self, target, *args, **kwargs):\n"
+_GUARD_END = ("                self.logger.exception(msg)\n                # this does not necessarily mean it's a system setup problem...\n                raise exceptions.RallyError(msg)\n\n\n"
+              "class EsClientFactory")
+_WHILE_HEAD = ("        execution_count = 0\n\n        while execution_count <= max_execution_count:\n            time_to_sleep = 2**execution_count + random.random()\n"
+               "            execution_count += 1\n")
+_ITEM_SCAN = ("                for err in e.errors:\n                    err_type = err.get(\"index\", {}).get(\"error\", {}).get(\"type\", None)\n"
+              "                    if err.get(\"index\", {}).get(\"status\", None) not in self.retryable_status_codes:\n"
+              "                        msg = f\"Unretryable error encountered when sending metrics to remote metrics store: [{err_type}]\"\n"
+              "                        self.logger.exception(\"%s - Full error(s) [%s]\", msg, str(e.errors))\n                        raise exceptions.RallyError(msg)\n")
+_ITEM_HELPER = ("    def _raise_on_unretryable_items(self, item_errors):\n        for err in item_errors:\n            item = err.get(\"index\", {{}})\n"
+                "            if item.get(\"status\", None) not in self.retryable_status_codes:\n"
+                "                msg = f\"Unretryable error encountered when sending metrics to remote metrics store: [{{item.get('error')}}]\"\n"
+                "                self.logger.exception(\"%s - Full error(s) [%s]\", msg, str(item_errors))\n{tail}\n")
+
+_TIMEOUT_ARM = ("            except elasticsearch.exceptions.ConnectionTimeout as e:\n                if execution_count <= max_execution_count:\n                    self.logger.debug(\n"
+                "                        \"Connection timeout [%s] in attempt [%d/%d]. Sleeping for [%f] seconds.\",\n                        e.message,\n                        execution_count,\n"
+                "                        max_execution_count,\n                        time_to_sleep,\n                    )\n                    time.sleep(time_to_sleep)\n                else:\n"
+                "                    operation = target.__name__\n"
+                "                    self.logger.exception(\"Connection timeout while running [%s] (retried %d times).\", operation, max_execution_count)\n"
+                "                    node = self._client.transport.node_pool.get()\n                    msg = (\n"
+                "                        \"A connection timeout occurred while running the operation [%s] against your Elasticsearch metrics store on \"\n"
+                "                        \"host [%s] at port [%s].\" % (operation, node.host, node.port)\n                    )\n                    raise exceptions.RallyError(msg)\n")
+_TIMEOUT_CALL = ("            except elasticsearch.exceptions.ConnectionTimeout as e:\n"
+                 "                self._on_timeout(e, execution_count, max_execution_count, pause=time_to_sleep, operation=target.__name__)\n")
+_TIMEOUT_HELPER = ("    def _on_timeout(self, e, attempt, max_attempts, pause, operation):\n        if attempt {op} max_attempts:\n"
+                   "            self.logger.exception(\"Connection timeout while running [%s] (retried %d times).\", operation, max_attempts)\n"
+                   "            node = self._client.transport.node_pool.get()\n"
+                   "            msg = \"A connection timeout occurred while running the operation [%s] against your Elasticsearch metrics store on host [%s] at port [%s].\" % (\n"
+                   "                operation, node.host, node.port)\n            raise exceptions.RallyError(msg)\n"
+                   "        self.logger.debug(\"Connection timeout [%s] in attempt [%d/%d]. Sleeping for [%f] seconds.\", e.message, attempt, max_attempts, pause)\n"
+                   "        time.sleep(pause)\n\n")
 VARIANTS = [
     V("search called directly", "break", _M, "        return self.guarded(self._client.search, index=index, body=body)", "        return self._client.search(index=index, body=body)", "O17.1"),
     V("second target call after the loop", "break", _M, "                self.logger.exception(msg)\n                # this does not necessarily mean it's a system setup problem...\n                raise exceptions.RallyError(msg)\n\n\nclass EsClientFactory",
@@ -909,4 +1668,37 @@ VARIANTS = [
     V("1 << k back-off", "keep", _M, "            time_to_sleep = 2**execution_count + random.random()", "            time_to_sleep = (1 << execution_count) + random.random()"),
     V("set literal", "keep", _M, "        self.retryable_status_codes = [502, 503, 504, 429]", "        self.retryable_status_codes = {429, 502, 503, 504}"),
     V("budget constant 10 inline", "keep", _M, "        while execution_count <= max_execution_count:", "        while execution_count <= 10:"),
+    # refactored shapes (benign round): extracted helpers, for over a range, result bound and logged before it is returned, break + return after the loop
+    [V("status test extracted into a helper method", "keep", _M, "                if e.status_code in self.retryable_status_codes and execution_count <= max_execution_count:",
+       "                if self._is_retryable_status(e.status_code) and execution_count <= max_execution_count:"),
+     V("", "keep", _M, _GUARD_DEF, "    def _is_retryable_status(self, status):\n        return status in self.retryable_status_codes\n\n" + _GUARD_DEF)],
+    [V("extracted status helper also accepts 500", "break", _M, "                if e.status_code in self.retryable_status_codes and execution_count <= max_execution_count:",
+       "                if self._is_retryable_status(e.status_code) and execution_count <= max_execution_count:", "O17.4"),
+     V("", "break", _M, _GUARD_DEF, "    def _is_retryable_status(self, status):\n        return status in self.retryable_status_codes or status == 500\n\n" + _GUARD_DEF)],
+    [V("bulk item scan extracted into a helper method", "keep", _M, _ITEM_SCAN, "                self._raise_on_unretryable_items(e.errors)\n"),
+     V("", "keep", _M, _GUARD_DEF, _ITEM_HELPER.format(tail="                raise exceptions.RallyError(msg)\n") + _GUARD_DEF)],
+    [V("extracted bulk item scan only logs the unretryable item", "break", _M, _ITEM_SCAN, "                self._raise_on_unretryable_items(e.errors)\n", "O17.4"),
+     V("", "break", _M, _GUARD_DEF, _ITEM_HELPER.format(tail="") + _GUARD_DEF)],
+    [V("extracted bulk item scan stops after the first item", "break", _M, _ITEM_SCAN, "                self._raise_on_unretryable_items(e.errors)\n", "O17.4"),
+     V("", "break", _M, _GUARD_DEF, _ITEM_HELPER.format(tail="                raise exceptions.RallyError(msg)\n            return\n") + _GUARD_DEF)],
+    [V("timeout arm extracted wholesale into a helper (guard clause, renamed parameters, keyword arguments)", "keep", _M, _TIMEOUT_ARM, _TIMEOUT_CALL),
+     V("", "keep", _M, _GUARD_DEF, _TIMEOUT_HELPER.format(op=">") + _GUARD_DEF)],
+    [V("extracted timeout arm gives up one attempt early", "break", _M, _TIMEOUT_ARM, _TIMEOUT_CALL, "O17.3"),
+     V("", "break", _M, _GUARD_DEF, _TIMEOUT_HELPER.format(op=">=") + _GUARD_DEF)],
+    V("for over a range instead of while with a counter", "keep", _M, _WHILE_HEAD,
+      "\n        for execution_count in range(1, max_execution_count + 2):\n            time_to_sleep = 2 ** (execution_count - 1) + random.random()\n"),
+    V("for over a range one attempt short", "break", _M, _WHILE_HEAD,
+      "\n        for execution_count in range(1, max_execution_count + 1):\n            time_to_sleep = 2 ** (execution_count - 1) + random.random()\n", "O17.3"),
+    V("for over a range with a linear pause", "break", _M, _WHILE_HEAD,
+      "\n        for execution_count in range(1, max_execution_count + 2):\n            time_to_sleep = 2 * (execution_count - 1) + random.random()\n", "O17.3"),
+    V("result bound, success logged, then returned", "keep", _M, "                return target(*args, **kwargs)\n",
+      "                result = target(*args, **kwargs)\n                if execution_count > 1:\n                    self.logger.debug(\"Operation [%s] succeeded in attempt [%d].\", "
+      "getattr(target, \"__name__\", target), execution_count)\n                return result\n"),
+    V("store call inside the try after the successful attempt", "break", _M, "                return target(*args, **kwargs)\n",
+      "                result = target(*args, **kwargs)\n                self._client.indices.refresh(index=\"rally-*\")\n                return result\n", "O17.2"),
+    V("only a truthy result is returned from the try", "break", _M, "                return target(*args, **kwargs)\n",
+      "                result = target(*args, **kwargs)\n                if result:\n                    return result\n", "O17.2"),
+    [V("break on success, result returned after the loop", "keep", _M, "                return target(*args, **kwargs)\n", "                result = target(*args, **kwargs)\n                break\n"),
+     V("", "keep", _M, _GUARD_END, _GUARD_END.replace("\n\n\nclass EsClientFactory", "\n        return result\n\n\nclass EsClientFactory"))],
+    V("renamed retryable set attribute", "keep", _M, "retryable_status_codes", "_transient_statuses", count=3),
 ]
